@@ -217,8 +217,8 @@ Proof.
   - intros e. cbn [walk]. apply sim_do_element.
   - intros id ms IH. cbn [walk]. apply Hfixed. exact IH.
   - intros id f _ ms IH. cbn [walk].
-    apply (c_bind (fun s => match f with DElem e => do_element H1 (DDElem e) e s | _ => Err EAttr end)
-                  (fun s => match f with DElem e => do_element H2 (DDElem e) e s | _ => Err EAttr end)).
+    apply (c_bind (fun s => match f with DElem e => do_element H1 (DDElem e) e s | _ => Err EUnknownDescriptor end)
+                  (fun s => match f with DElem e => do_element H2 (DDElem e) e s | _ => Err EUnknownDescriptor end)).
     + destruct f; try apply c_err. apply sim_do_element.
     + apply Hdelayed. exact IH.
   - intros id. cbn [walk]. apply sim_do_operator.
